@@ -34,6 +34,23 @@ CHECKS = {
             'was consumed whenever code was emitted. Held on the executions observed.',
             'Trusted: vf/xlref as the reading of the precedence table in the statement. Operand values are sampled '
             '(distinct primes, a negative, a decimal, a blank), not all doubles.'),
+    'C15': ('runtime monitoring: boundary oracle = calendar closed forms over override sweeps; virtual clock shim and '
+            'time-zone sub-processes for TODAY',
+            'DATE over a box of (year, month -30..40, day -400..500) with YEAR/MONTH/DAY inversion, DATEDIF D/M/Y/YM over '
+            'date pairs of a multi-year window, EDATE/EOMONTH offsets -60..60, NETWORKDAYS with holiday ranges (gaps, '
+            'duplicates, weekend holidays, non-date cells) are executed through the real Executor and compared exactly with '
+            'datetime/calendar closed forms that do not use dateutil; TODAY is observed under a virtual clock installed in '
+            'the loaded module and under the real clock in three time zones. Held on the executions observed.',
+            'Trusted: CPython datetime/calendar. A real midnight roll-over cannot be scheduled (virtual clock instead); '
+            'years outside 1900..9999 not explored.'),
+    'C14': ('runtime monitoring: boundary oracle = independent linear search / slicing (vf/xlref); exhaustive ADDRESS '
+            'and INDEX sub-spaces',
+            'Generated lookup tables x lookup values x VLOOKUP/MATCH/XMATCH modes x result columns, INDEX over every '
+            '(r,c) around every shape <=4x4, ADDRESS for every column 1..16384, COLUMN over boundary/random columns and '
+            'spellings are executed through the real Parser/Executor and compared exactly with the reference search; the '
+            'error value is demanded exactly where the statement names it (#N/A, #REF!). Held on the executions observed.',
+            'Trusted: vf/xlref lookup semantics, openpyxl get_column_letter. Blank keys vs lookup value 0: either reading '
+            'accepted (statement silent).'),
 }
 
 PENDING_REASON = 'check not built yet in this round (see DESIGN.md section 4); will be claimed once its monitor runs clean'
